@@ -9,7 +9,7 @@
     by monotonicity of the non-negative operators; and because the total of the corrected model is at most the total of the
     model (= the total of the plain projection), the same entrywise lower bound gives the upper bound
         lowpass[idx] <= kappa * plain[idx] + (1 - kappa) * total. *)
-From Coq Require Import ZArith QArith Qreduction List Bool Arith Lia Lqa Setoid Morphisms.
+From Coq Require Import ZArith QArith Qreduction Qabs List Bool Arith Lia Lqa Setoid Morphisms.
 From Dadi Require Import Model.LowPass Proofs.LowPassBinom Proofs.LowPassPart Proofs.LowPassQ Proofs.LowPassProb Proofs.LowPassMat
   Proofs.LowPassCall Proofs.LowPassTens Proofs.LowPassTotal Proofs.LowPassGet Proofs.LowPassDeep.
 Import ListNotations.
@@ -297,3 +297,486 @@ Proof.
     apply cem_row_diag; [apply (vs_h _ V) | rewrite even_half by exact E2; lia | lia | exact HF]. }
   unfold clip0. destruct (Qle_bool 0 (1 - het_bound p)); assumption.
 Qed.
+
+(** ** arrays: entries against the total, non-negative operators *)
+Lemma tall_tget_nonneg : forall d x, tall d (fun m => 0 <= m) x -> forall idx, 0 <= tget d x idx.
+Proof.
+  induction d as [|d IH]; intros x H idx; [exact H|].
+  destruct idx as [|i idx]; [rewrite tget_nil; lra|]. rewrite tget_cons.
+  destruct (@nth_error (tens d) x i) as [xi|] eqn:E; [|lra].
+  apply IH. cbn [tall] in H. rewrite Forall_forall in H. apply H. eapply nth_error_In, E.
+Qed.
+
+Lemma repeat0_length d : length (repeat 0%nat d) = d.
+Proof. apply repeat_length. Qed.
+
+(** an entry of an array with non-negative entries is at most the total *)
+Lemma entry_le_total : forall d z, (forall j, length j = d -> 0 <= tget d z j) ->
+  forall idx, length idx = d -> tget d z idx <= ttotal d z.
+Proof.
+  induction d as [|d IH]; intros z H idx L; [cbn [tget ttotal]; lra|].
+  revert idx L. induction z as [|a z IHz]; intros idx L.
+  - destruct idx as [|i idx]; [discriminate|]. rewrite tget_cons_nil. cbn. lra.
+  - assert (Ha : forall j, length j = d -> 0 <= tget d a j).
+    { intros j Lj. specialize (H (0%nat :: j) ltac:(cbn; lia)). now rewrite tget_cons_0 in H. }
+    assert (Hz : forall j, length j = S d -> 0 <= tget (S d) z j).
+    { intros [|i j] Lj; [discriminate|]. specialize (H (S i :: j) ltac:(cbn in *; lia)). now rewrite tget_cons_S in H. }
+    specialize (IHz Hz).
+    assert (Ta : 0 <= ttotal d a).
+    { eapply Qle_trans; [apply (Ha (repeat 0%nat d) (repeat0_length d)) | apply IH; [exact Ha | apply repeat0_length]]. }
+    assert (Tz : 0 <= ttotal (S d) z).
+    { eapply Qle_trans; [apply (Hz (repeat 0%nat (S d)) (repeat0_length (S d))) | apply IHz, repeat0_length]. }
+    rewrite ttotal_S. cbn [map]. rewrite qsum_cons. rewrite ttotal_S in Tz, IHz.
+    destruct idx as [|i idx]; [discriminate|]. cbn [length] in L.
+    destruct i as [|i]; rewrite ?tget_cons_0, ?tget_cons_S.
+    + pose proof (IH a Ha idx ltac:(lia)). lra.
+    + pose proof (IHz (i :: idx) ltac:(cbn; lia)). lra.
+Qed.
+
+Lemma total_nonneg_of_entries d z : (forall j, length j = d -> 0 <= tget d z j) -> 0 <= ttotal d z.
+Proof.
+  intros H. eapply Qle_trans; [apply (H (repeat 0%nat d) (repeat0_length d)) | apply entry_le_total; [exact H | apply repeat0_length]].
+Qed.
+
+Lemma upd_same : forall ax idx, (ax < length idx)%nat -> upd ax (nth ax idx 0%nat) idx = idx.
+Proof.
+  induction ax as [|ax IH]; intros [|i idx] H; cbn in H; try lia; cbn [upd nth]; [reflexivity|].
+  f_equal. apply IH. lia.
+Qed.
+
+(** entries after applying a matrix with non-negative entries *)
+Definition mat_nonneg (M : list (list Q)) : Prop := forall a j, 0 <= nth j (nth a M []) 0.
+
+Lemma tapply_nonneg d ax M ncols (x : tens d) : (ax < d)%nat -> mat_nonneg M ->
+  (forall idx, length idx = d -> 0 <= tget d x idx) ->
+  forall idx, length idx = d -> 0 <= tget d (tapply d ax M ncols x) idx.
+Proof.
+  intros Hax HM Hx idx L. rewrite tget_tapply by assumption.
+  destruct (_ <? ncols)%nat; [|lra]. apply qsum_map_nonneg. intros a _.
+  apply Qmult_le_0_compat; [apply HM | apply Hx; now rewrite upd_length].
+Qed.
+
+Lemma tapply_lower d ax M ncols (x y : tens d) k : (ax < d)%nat -> mat_nonneg M ->
+  (forall idx, length idx = d -> k * tget d y idx <= tget d x idx) ->
+  forall idx, length idx = d -> k * tget d (tapply d ax M ncols y) idx <= tget d (tapply d ax M ncols x) idx.
+Proof.
+  intros Hax HM Hxy idx L. rewrite !tget_tapply by assumption.
+  destruct (_ <? ncols)%nat; [|lra]. rewrite <- qsum_map_scale. apply qsum_map_le. intros a _.
+  pose proof (HM a (nth ax idx 0%nat)) as H0. specialize (Hxy (upd ax a idx) ltac:(now rewrite upd_length)).
+  set (m := nth (nth ax idx 0%nat) (nth a M []) 0) in *. nra.
+Qed.
+
+Lemma tapply_entries_ext d ax M M' ncols (x : tens d) : (ax < d)%nat -> length M = length M' ->
+  (forall a j, nth j (nth a M []) 0 == nth j (nth a M' []) 0) ->
+  forall idx, length idx = d -> tget d (tapply d ax M ncols x) idx == tget d (tapply d ax M' ncols x) idx.
+Proof.
+  intros Hax HL HE idx L. rewrite !tget_tapply by assumption. rewrite HL.
+  destruct (_ <? ncols)%nat; [|reflexivity]. apply qsum_map_ext. intros a _. rewrite HE. reflexivity.
+Qed.
+
+(** a matrix with non-negative entries and diagonal >= c moves at least the fraction c of every entry in place *)
+Lemma tapply_diag_lower d ax C ncols (w : tens d) c : (ax < d)%nat -> length C = ncols -> mat_nonneg C ->
+  (forall j, (j < ncols)%nat -> c <= nth j (nth j C []) 0) ->
+  (forall idx, length idx = d -> 0 <= tget d w idx) ->
+  forall idx, length idx = d -> (nth ax idx 0 < ncols)%nat ->
+  c * tget d w idx <= tget d (tapply d ax C ncols w) idx.
+Proof.
+  intros Hax HL HC Hd Hw idx L Hj. rewrite tget_tapply by assumption. rewrite HL.
+  set (j := nth ax idx 0%nat) in *. destruct (Nat.ltb_spec j ncols) as [_|]; [|lia].
+  eapply Qle_trans; [|apply (qsum_term_le (fun a => nth j (nth a C []) 0 * tget d w (upd ax a idx)) ncols j Hj)].
+  - cbv beta. unfold j at 3. rewrite upd_same by lia. specialize (Hd j Hj). specialize (Hw idx L).
+    set (t := tget d w idx) in *. nra.
+  - intros a _. apply Qmult_le_0_compat; [apply HC | apply Hw; now rewrite upd_length].
+Qed.
+
+(** ** (e) one population step, and all of them: an entrywise lower bound *)
+Definition projm (p : pop) : list (list Q) := proj_matrix (p_nseq p) (p_nsub p) (p_F p).
+Definition diag_fac (p : pop) : Q := clip0 (1 - het_bound p).
+
+Lemma diag_fac_spec p : pop_ok p -> 0 <= diag_fac p <= 1 /\ 1 - het_bound p <= diag_fac p.
+Proof.
+  intros Hok. pose proof (het_bound_nonneg p Hok). unfold diag_fac.
+  destruct (clip0_spec (1 - het_bound p)) as (C0 & C1 & C2). specialize (C2 ltac:(lra)). repeat split; assumption.
+Qed.
+
+Lemma apply_pop_lower d pops ax p (x y : tens d) k : (ax < d)%nat -> pe_tot pops == 1 -> pop_ok p -> 0 <= k ->
+  (forall idx, length idx = d -> 0 <= tget d y idx) ->
+  (forall idx, length idx = d -> k * tget d y idx <= tget d x idx) ->
+  forall idx, length idx = d ->
+  (k * diag_fac p) * tget d (tapply d ax (projm p) (p_nsub p + 1) y) idx <= tget d (apply_pop d pops ax p x) idx.
+Proof.
+  intros Hax He Hok Hk Hy Hxy idx L. unfold apply_pop, apply_pop_v.
+  change (proj_mat_scaled_v (pe_tot pops) p) with (proj_mat_scaled pops p).
+  destruct (heterr_mat_rows p Hok) as [LH _]. destruct (proj_mat_scaled_rows pops p Hok) as [LP _].
+  assert (LP0 : length (projm p) = (p_nseq p + 1)%nat).
+  { destruct Hok as (_ & E1 & E2 & Hs & HF). exact (proj1 (proj_matrix_rows _ _ _ Hs E1 HF)). }
+  assert (NP : mat_nonneg (projm p)) by (intros b j; apply proj_nonneg, Hok).
+  assert (NC : mat_nonneg (heterr_mat p)) by (intros a j; apply heterr_nonneg, Hok).
+  destruct (diag_fac_spec p Hok) as [[D0 D1] _].
+  set (w' := tapply d ax (projm p) (p_nsub p + 1) y).
+  set (w := tapply d ax (proj_mat_scaled pops p) (p_nsub p + 1) x).
+  assert (Hw' : forall i2, length i2 = d -> 0 <= tget d w' i2) by (apply tapply_nonneg; assumption).
+  assert (Hww : forall i2, length i2 = d -> k * tget d w' i2 <= tget d w i2).
+  { intros i2 L2. unfold w, w'.
+    rewrite (tapply_entries_ext d ax (proj_mat_scaled pops p) (projm p)); auto; [|lia|].
+    - apply tapply_lower; assumption.
+    - intros b j. apply proj_mat_scaled_entry, He. }
+  assert (Hw : forall i2, length i2 = d -> 0 <= tget d w i2).
+  { intros i2 L2. specialize (Hww i2 L2). specialize (Hw' i2 L2). set (t := tget d w' i2) in *. nra. }
+  destruct (Nat.ltb_spec (nth ax idx 0%nat) (p_nsub p + 1)) as [Hj|Hj].
+  - pose proof (tapply_diag_lower d ax (heterr_mat p) (p_nsub p + 1) w (diag_fac p) Hax LH NC
+                  (fun j Hj => heterr_diag p j Hok Hj) Hw idx L Hj) as Dg.
+    specialize (Hww idx L). specialize (Hw' idx L). specialize (Hw idx L).
+    set (t' := tget d w' idx) in *. set (t := tget d w idx) in *.
+    assert (diag_fac p * (k * t') <= diag_fac p * t) by nra. nra.
+  - unfold w'. rewrite !tget_tapply by assumption.
+    destruct (Nat.ltb_spec (nth ax idx 0%nat) (p_nsub p + 1)); [lia | lra].
+Qed.
+
+Definition plain_fold (d : nat) (i : nat) (ps : list pop) (y : tens d) : tens d :=
+  foldi_from (fun ax p z => tapply d ax (proj_matrix (p_nseq p) (p_nsub p) (p_F p)) (p_nsub p + 1) z) i ps y.
+
+Lemma plain_fold_nonneg d : forall ps i (y : tens d), (i + length ps = d)%nat -> Forall pop_ok ps ->
+  (forall idx, length idx = d -> 0 <= tget d y idx) ->
+  forall idx, length idx = d -> 0 <= tget d (plain_fold d i ps y) idx.
+Proof.
+  unfold plain_fold. induction ps as [|p ps IH]; intros i y Hd Hps Hy; cbn [foldi_from]; [exact Hy|].
+  cbn [length] in Hd. apply IH; [lia | apply (Forall_inv_tail Hps) |].
+  apply tapply_nonneg; [lia | | exact Hy]. intros b j. apply proj_nonneg, (Forall_inv Hps).
+Qed.
+
+Lemma apply_all_lower d pops : pe_tot pops == 1 -> forall ps i (x y : tens d) k, (i + length ps = d)%nat ->
+  Forall pop_ok ps -> 0 <= k ->
+  (forall idx, length idx = d -> 0 <= tget d y idx) ->
+  (forall idx, length idx = d -> k * tget d y idx <= tget d x idx) ->
+  forall idx, length idx = d ->
+  (k * qprod (map diag_fac ps)) * tget d (plain_fold d i ps y) idx <= tget d (foldi_from (apply_pop d pops) i ps x) idx.
+Proof.
+  intros He. unfold plain_fold. induction ps as [|p ps IH]; intros i x y k Hd Hps Hk Hy Hxy idx L; cbn [foldi_from map].
+  - unfold qprod. cbn [fold_right]. specialize (Hxy idx L). lra.
+  - pose proof (Forall_inv Hps) as Hp. pose proof (Forall_inv_tail Hps) as Hps'. cbn [length] in Hd.
+    destruct (diag_fac_spec p Hp) as [[D0 D1] _].
+    unfold qprod. cbn [fold_right]. fold (qprod (map diag_fac ps)).
+    setoid_replace (k * (diag_fac p * qprod (map diag_fac ps))) with ((k * diag_fac p) * qprod (map diag_fac ps)) by ring.
+    apply IH; [lia | exact Hps' | apply Qmult_le_0_compat; assumption | | | exact L].
+    + apply tapply_nonneg; [lia | | exact Hy]. intros b j. apply proj_nonneg, Hp.
+    + intros i2 L2. apply apply_pop_lower; auto. lia.
+Qed.
+
+(** the plain projection keeps the total *)
+Lemma plain_fold_total d : forall ps i (x : tens d), (i + length ps = d)%nat -> Forall pop_ok ps ->
+  (forall k p, nth_error ps k = Some p -> axis_le d (i + k) (p_nseq p + 1) x) ->
+  ttotal d (plain_fold d i ps x) == ttotal d x.
+Proof.
+  unfold plain_fold. induction ps as [|p ps IH]; intros i x Hd Hok Hx; cbn [foldi_from]; [reflexivity|].
+  pose proof (Forall_inv Hok) as Hp. pose proof (Forall_inv_tail Hok) as Hps. cbn [length] in Hd.
+  destruct Hp as (_ & E1 & E2 & Hs & HF). destruct (proj_matrix_rows _ _ _ Hs E1 HF) as [LP RP].
+  rewrite IH; [| lia | exact Hps |].
+  - rewrite (tapply_total d i _ _ 1); [ring | lia | |].
+    + intros row Hr. destruct (RP row Hr) as (L0 & _ & S0). split; assumption.
+    + rewrite LP. specialize (Hx 0%nat p eq_refl). now rewrite Nat.add_0_r in Hx.
+  - intros k q Hq. apply axis_le_tapply_other; [lia|].
+    replace (S i + k)%nat with (i + S k)%nat by lia. apply Hx. exact Hq.
+Qed.
+
+(** entries of an index-aware map (0 outside the array) *)
+Lemma tget_tmapi : forall d (g : list nat -> Q -> Q) pre x idx, length idx = d -> (forall i, g i 0 == 0) ->
+  tget d (tmapi d g pre x) idx == g (pre ++ idx) (tget d x idx).
+Proof.
+  induction d as [|d IH]; intros g pre x idx L G0.
+  - destruct idx; [|discriminate]. rewrite app_nil_r. reflexivity.
+  - destruct idx as [|i idx]; [discriminate|]. cbn [tmapi]. rewrite tget_mapi_from, tget_cons. cbn [Nat.add].
+    destruct (@nth_error (tens d) x i) as [xi|].
+    + rewrite IH by (auto; cbn in L; lia). rewrite <- app_assoc. reflexivity.
+    + symmetry. apply G0.
+Qed.
+
+(** ** the theorem, any number of populations *)
+Section Rate.
+  Variable d : nat.
+  Variable pops : list pop.
+  Variable thr : Q.
+  Variable sim : list nat -> tens d.
+  Variable model : tens d.
+  Variable Bm : Q.
+  Hypothesis Hd : length pops = d.
+  Hypothesis Hnear : Forall near_deep pops.
+  Hypothesis HBm : Forall (fun p => nc_bound p <= Bm) pops.
+  Hypothesis HBm0 : 0 <= Bm.
+  Hypothesis Hthr : Bm <= thr.
+  Hypothesis Hshape : shape_le d pops model.
+  Hypothesis Hnn : tall d (fun m => 0 <= m) model.
+  Hypothesis Hcorner : tget d model (repeat 0%nat d) == 0.
+
+  Let Hok : Forall pop_ok pops.
+  Proof. eapply Forall_impl; [|exact Hnear]. intros q Hq. apply Hq. Qed.
+
+  Let Hpe : pe_tot pops == 1 := pe_tot_near pops Hnear.
+
+  Let Horig : forall idx', length idx' = d -> is_origin idx' = true -> tget d model idx' == 0.
+  Proof. intros idx' L O. rewrite (origin_repeat idx' O), L. exact Hcorner. Qed.
+
+  Let Hm0 : forall idx, 0 <= tget d model idx := tall_tget_nonneg d model Hnn.
+
+  Definition k0 : Q := clip0 (1 - Bm).
+  Definition kfac : Q := k0 * qprod (map diag_fac pops).
+  Definition analytic_part : tens d := apply_all d pops (analytic0 d pops thr model).
+
+  (** the simulated part adds nothing: it is only ever switched on at the corner, where the model is 0 *)
+  Lemma lowpass_is_analytic idx : length idx = d ->
+    tget d (lowpass d pops thr sim model) idx == tget d analytic_part idx.
+  Proof.
+    intros Hl.
+    change (lowpass d pops thr sim model)
+      with (tfoldi d (fun idx' m acc => if use_sim pops thr idx' then tadd d acc (tscale d m (sim idx')) else acc) [] model
+                   analytic_part).
+    apply (tfoldi_inv (fun acc => tget d acc idx == tget d analytic_part idx)); [|reflexivity].
+    apply talli_of_tget. intros idx' L a Ha. cbn [app].
+    destruct (use_sim pops thr idx') eqn:U; [|exact Ha].
+    destruct (is_origin idx') eqn:O.
+    - rewrite tget_tadd, tget_tscale, Ha, (Horig idx' L O). ring.
+    - rewrite (use_sim_near pops thr Bm idx') in U by (auto; congruence). discriminate.
+  Qed.
+
+  Lemma k0_spec : 0 <= k0 <= 1 /\ 1 - Bm <= k0.
+  Proof. unfold k0. destruct (clip0_spec (1 - Bm)) as (C0 & C1 & C2). specialize (C2 ltac:(lra)). repeat split; assumption. Qed.
+
+  (** the analytic starting array keeps at least the fraction k0 of every model entry *)
+  Lemma analytic0_lower idx : length idx = d -> k0 * tget d model idx <= tget d (analytic0 d pops thr model) idx.
+  Proof.
+    intros L.
+    change (analytic0 d pops thr model)
+      with (tmapi d (fun idx m => if use_sim pops thr idx then 0 else m * (1 - pnc_at pops idx)) [] model).
+    rewrite tget_tmapi by (auto; intros i; destruct (use_sim pops thr i); ring). cbn [app].
+    destruct k0_spec as [[K0 K1] K2]. pose proof (Hm0 idx) as M0.
+    destruct (is_origin idx) eqn:O.
+    - pose proof (Horig idx L O) as Z. destruct (use_sim pops thr idx); rewrite Z; lra.
+    - rewrite (use_sim_near pops thr Bm idx) by (auto; congruence).
+      destruct (pnc_at_near Bm pops idx Hnear HBm ltac:(congruence) O) as [P0 P1].
+      pose proof (pnc_at_unit pops idx Hok) as [_ PU].
+      assert (k0 <= 1 - pnc_at pops idx).
+      { unfold k0, clip0. destruct (Qle_bool 0 (1 - Bm)); lra. }
+      set (m := tget d model idx) in *. nra.
+  Qed.
+
+  Lemma plain_is_fold : plain_projection d pops model = plain_fold d 0 pops model.
+  Proof. reflexivity. Qed.
+
+  Lemma plain_nonneg idx : length idx = d -> 0 <= tget d (plain_projection d pops model) idx.
+  Proof. intros L. rewrite plain_is_fold. apply plain_fold_nonneg; auto. Qed.
+
+  Lemma kfac_spec : 0 <= kfac <= 1 /\ 1 - kfac <= Bm + qsum (map het_bound pops).
+  Proof.
+    destruct k0_spec as [[K0 K1] K2].
+    destruct (clip_prod_bound (map het_bound pops)) as [[P0 P1] PS].
+    { intros e He. apply in_map_iff in He. destruct He as (p & <- & Hp). apply het_bound_nonneg.
+      rewrite Forall_forall in Hok. apply Hok, Hp. }
+    rewrite map_map in P0, P1, PS. fold diag_fac in P0, P1, PS. change (fun x => diag_fac x) with diag_fac in *.
+    assert (S0 : 0 <= qsum (map het_bound pops)).
+    { apply qsum_map_nonneg. intros p Hp. apply het_bound_nonneg. rewrite Forall_forall in Hok. apply Hok, Hp. }
+    unfold kfac. set (P := qprod (map diag_fac pops)) in *. set (S := qsum (map het_bound pops)) in *.
+    split; [nra|].
+    destruct (Qlt_le_dec (1 - Bm) 0) as [Hn|Hp].
+    - assert (0 <= k0 * P) by nra. lra.
+    - assert ((1 - Bm) * P <= k0 * P) by nra. nra.
+  Qed.
+
+  (** entrywise lower bound *)
+  Lemma analytic_lower idx : length idx = d ->
+    kfac * tget d (plain_projection d pops model) idx <= tget d analytic_part idx.
+  Proof.
+    intros L. rewrite plain_is_fold. unfold kfac, analytic_part, apply_all.
+    apply (apply_all_lower d pops Hpe pops 0%nat); auto.
+    - apply k0_spec.
+    - intros i2 L2. apply analytic0_lower, L2.
+  Qed.
+
+  (** totals *)
+  Lemma analytic_total_le : ttotal d analytic_part <= ttotal d model.
+  Proof.
+    unfold analytic_part, apply_all. rewrite apply_all_total; [| cbn [Nat.add]; exact Hd | exact Hok |].
+    - rewrite Hpe, qpow_1, Qmult_1_l. unfold analytic0, analytic0_v.
+      rewrite <- (tmapi_total_id d [] model). apply tmapi_total_le; [|exact Hnn].
+      intros idx m Hm. pose proof (pnc_at_unit pops idx Hok) as Hp. unfold pnc_at in Hp.
+      destruct (use_sim_v thr (pnc_vecs pops) idx); [lra|].
+      set (w := prod_at (pnc_vecs pops) idx) in *. nra.
+    - intros k p Hk. cbn [Nat.add]. unfold analytic0, analytic0_v. apply axis_le_tmapi. apply Hshape, Hk.
+  Qed.
+
+  Lemma plain_total : ttotal d (plain_projection d pops model) == ttotal d model.
+  Proof. rewrite plain_is_fold. apply plain_fold_total; auto. Qed.
+
+  Lemma model_total_nonneg : 0 <= ttotal d model.
+  Proof. apply total_nonneg_of_entries. intros j _. apply Hm0. Qed.
+
+  Theorem deep_rate_two_sided idx : length idx = d ->
+    let B := (Bm + qsum (map het_bound pops)) * ttotal d model in
+    - B <= tget d (lowpass d pops thr sim model) idx - tget d (plain_projection d pops model) idx <= B.
+  Proof.
+    intros L. cbv zeta. rewrite (lowpass_is_analytic idx L).
+    destruct kfac_spec as [[K0 K1] KE].
+    pose proof (analytic_lower idx L) as A1. pose proof analytic_total_le as A2. pose proof plain_total as A3.
+    pose proof (plain_nonneg idx L) as P0.
+    assert (PT : tget d (plain_projection d pops model) idx <= ttotal d model).
+    { rewrite <- A3. apply entry_le_total; [|exact L]. intros j Lj. apply plain_nonneg, Lj. }
+    pose proof model_total_nonneg as T0.
+    (* mass: what the lower bound leaves over is at most (1 - kfac) of the total *)
+    set (z := tadd d analytic_part (tscale d (- kfac) (plain_projection d pops model))).
+    assert (Zn : forall j, length j = d -> 0 <= tget d z j).
+    { intros j Lj. unfold z. rewrite tget_tadd, tget_tscale. pose proof (analytic_lower j Lj). lra. }
+    pose proof (entry_le_total d z Zn idx L) as A5.
+    unfold z in A5. rewrite tget_tadd, tget_tscale, ttotal_tadd, ttotal_tscale, A3 in A5.
+    set (Lw := tget d analytic_part idx) in *. set (P := tget d (plain_projection d pops model) idx) in *.
+    set (T := ttotal d model) in *. set (TX := ttotal d analytic_part) in *.
+    set (E := Bm + qsum (map het_bound pops)) in *.
+    assert ((1 - kfac) * P <= (1 - kfac) * T) by nra.
+    assert ((1 - kfac) * T <= E * T) by nra.
+    assert (0 <= (1 - kfac) * P) by nra.
+    split; lra.
+  Qed.
+
+  Theorem deep_rate idx : length idx = d ->
+    Qabs (tget d (lowpass d pops thr sim model) idx - tget d (plain_projection d pops model) idx)
+    <= (Bm + qsum (map het_bound pops)) * ttotal d model.
+  Proof. intros L. apply Qabs_Qle_condition. apply (deep_rate_two_sided idx L). Qed.
+End Rate.
+
+(** ** corollaries *)
+Lemma tall_total_nonneg d (model : tens d) : tall d (fun m => 0 <= m) model -> 0 <= ttotal d model.
+Proof. intros H. apply total_nonneg_of_entries. intros j _. apply tall_tget_nonneg, H. Qed.
+
+(** with the sum of the per-population no-call bounds below the threshold *)
+Theorem deep_rate_sum d pops thr (sim : list nat -> tens d) (model : tens d) :
+  length pops = d -> Forall near_deep pops -> qsum (map nc_bound pops) <= thr ->
+  shape_le d pops model -> tall d (fun m => 0 <= m) model -> tget d model (repeat 0%nat d) == 0 ->
+  forall idx, length idx = d ->
+  Qabs (tget d (lowpass d pops thr sim model) idx - tget d (plain_projection d pops model) idx)
+  <= qsum (map (fun p => het_bound p + nc_bound p) pops) * ttotal d model.
+Proof.
+  intros Hd Hnear Ht Hsh Hnn Hc idx L.
+  assert (Hok : Forall pop_ok pops) by (eapply Forall_impl; [|exact Hnear]; intros q Hq; apply Hq).
+  assert (N0 : forall p, In p pops -> 0 <= nc_bound p).
+  { intros p Hp. apply nc_bound_nonneg. rewrite Forall_forall in Hok. apply Hok, Hp. }
+  assert (HB : Forall (fun p => nc_bound p <= qsum (map nc_bound pops)) pops).
+  { clear - N0. induction pops as [|q ps IH]; constructor.
+    - cbn [map]. rewrite qsum_cons. assert (0 <= qsum (map nc_bound ps)) by (apply qsum_map_nonneg; intros; apply N0; now right). lra.
+    - eapply Forall_impl; [|apply IH; intros; apply N0; now right]. cbv beta. intros a Ha. cbn [map]. rewrite qsum_cons.
+      assert (0 <= nc_bound q) by (apply N0; now left). lra. }
+  rewrite qsum_map_add.
+  setoid_replace (qsum (map het_bound pops) + qsum (map nc_bound pops)) with (qsum (map nc_bound pops) + qsum (map het_bound pops)) by ring.
+  apply (deep_rate d pops thr sim model (qsum (map nc_bound pops))); auto.
+  apply qsum_map_nonneg. exact N0.
+Qed.
+
+(** one population *)
+Theorem deep_rate_one_pop p thr (sim : list nat -> tens 1) (model : tens 1) :
+  let st := p_st p in
+  pop_ok p -> st_c0 st == 0 -> st_c1 st == 0 -> (2 <= p_nseq p)%nat ->
+  st_s st + qnat (p_nseq p / 2) * st_t st <= thr ->
+  shape_le 1 [p] model -> tall 1 (fun m => 0 <= m) model -> tget 1 model [0%nat] == 0 ->
+  forall i,
+  Qabs (tget 1 (lowpass 1 [p] thr sim model) [i] - tget 1 (plain_projection 1 [p] model) [i])
+  <= (qnat (p_nsub p / 2) * st_h st + st_s st + qnat (p_nseq p / 2) * st_t st) * ttotal 1 model.
+Proof.
+  cbv zeta. intros Hok C0 C1 H2 Ht Hsh Hnn Hc i.
+  pose proof (deep_rate_sum 1 [p] thr sim model eq_refl) as R. cbn [map] in R. rewrite !qsum_cons, !qsum_nil in R.
+  unfold het_bound, nc_bound in R.
+  assert (Hn : Forall near_deep [p]) by (constructor; [exact (conj Hok (conj C0 (conj C1 H2))) | constructor]).
+  eapply Qle_trans; [apply (R Hn); auto; lra|].
+  apply Qmult_le_compat_r; [lra|apply (tall_total_nonneg 1 model Hnn)].
+Qed.
+
+(** ... in terms of the coverage distribution: every individual has depth >= D *)
+Definition covered_from (D : nat) (p : pop) : Prop :=
+  exists cov, cov_ok cov /\ supported_from D cov /\ p_st p = stats_of cov.
+Definition sizes_ok (p : pop) : Prop :=
+  Nat.even (p_nseq p) = true /\ Nat.even (p_nsub p) = true /\ (p_nsub p <= p_nseq p)%nat /\ F_ok (p_F p) /\ (2 <= p_nseq p)%nat.
+
+Lemma covered_near D p : (2 <= D)%nat -> covered_from D p -> sizes_ok p ->
+  near_deep p /\ nc_bound p <= (1 + qnat (p_nseq p / 2) * qnat D) * qpow half D
+  /\ het_bound p <= 2 * qnat (p_nsub p / 2) * qpow half D.
+Proof.
+  intros HD (cov & OK & Sp & St) (E1 & E2 & Hs & HF & H2).
+  pose proof (deep_coverage_stats_bound cov D OK Sp HD) as B. cbv zeta in B. rewrite <- St in B.
+  destruct B as (C0 & C1 & Pos & [S0 S1] & [T0 T1] & [H0 H1]).
+  pose proof (stats_of_valid cov OK) as V. rewrite <- St in V.
+  split; [|split].
+  - exact (conj (conj V (conj E1 (conj E2 (conj Hs HF)))) (conj C0 (conj C1 H2))).
+  - unfold nc_bound. pose proof (qnat_nonneg (p_nseq p / 2)) as Hn.
+    set (n := qnat (p_nseq p / 2)) in *. set (e := qpow half D) in *. nra.
+  - unfold het_bound. pose proof (qnat_nonneg (p_nsub p / 2)) as Hm.
+    set (m := qnat (p_nsub p / 2)) in *. set (e := qpow half D) in *. nra.
+Qed.
+
+Theorem deep_coverage_rate d pops thr (sim : list nat -> tens d) (model : tens d) D Nm :
+  length pops = d -> (2 <= D)%nat -> Forall (covered_from D) pops -> Forall sizes_ok pops ->
+  Forall (fun p => (p_nseq p / 2 <= Nm)%nat) pops ->
+  (1 + qnat Nm * qnat D) * qpow half D <= thr ->
+  shape_le d pops model -> tall d (fun m => 0 <= m) model -> tget d model (repeat 0%nat d) == 0 ->
+  forall idx, length idx = d ->
+  Qabs (tget d (lowpass d pops thr sim model) idx - tget d (plain_projection d pops model) idx)
+  <= (1 + qnat Nm * qnat D + 2 * qsum (map (fun p => qnat (p_nsub p / 2)) pops)) * qpow half D * ttotal d model.
+Proof.
+  intros Hd HD Hcov Hsz HN Ht Hsh Hnn Hc idx L.
+  pose proof (half_pow_nonneg D) as E0. pose proof (qnat_nonneg D) as D0. pose proof (qnat_nonneg Nm) as N0.
+  assert (ND : 0 <= qnat Nm * qnat D) by (apply Qmult_le_0_compat; assumption).
+  assert (All : forall p, In p pops -> near_deep p /\ nc_bound p <= (1 + qnat Nm * qnat D) * qpow half D
+                                        /\ het_bound p <= 2 * qnat (p_nsub p / 2) * qpow half D).
+  { intros p Hp. rewrite Forall_forall in Hcov, Hsz, HN.
+    destruct (covered_near D p HD (Hcov p Hp) (Hsz p Hp)) as (A & B & C). split; [exact A|]. split; [|exact C].
+    eapply Qle_trans; [exact B|]. pose proof (qnat_le _ _ (HN p Hp)) as Hle.
+    set (n := qnat (p_nseq p / 2)) in *. set (e := qpow half D) in *. set (dd := qnat D) in *. set (nm := qnat Nm) in *.
+    assert (n * dd <= nm * dd) by nra. nra. }
+  set (Bm := (1 + qnat Nm * qnat D) * qpow half D).
+  assert (HBm0 : 0 <= Bm) by (unfold Bm; nra).
+  eapply Qle_trans.
+  - apply (deep_rate d pops thr sim model Bm); auto.
+    + rewrite Forall_forall. intros p Hp. apply (All p Hp).
+    + rewrite Forall_forall. intros p Hp. apply (All p Hp).
+  - pose proof (tall_total_nonneg d model Hnn) as T0.
+    assert (HS : qsum (map het_bound pops) <= 2 * qpow half D * qsum (map (fun p => qnat (p_nsub p / 2)) pops)).
+    { rewrite <- qsum_map_scale. apply qsum_map_le. intros p Hp. destruct (All p Hp) as (_ & _ & C). lra. }
+    unfold Bm. set (T := ttotal d model) in *. set (e := qpow half D) in *.
+    set (S1 := qsum (map het_bound pops)) in *. set (S2 := qsum (map (fun p => qnat (p_nsub p / 2)) pops)) in *.
+    set (c := qnat Nm * qnat D) in *. nra.
+Qed.
+
+Theorem deep_coverage_rate_one_pop p cov D thr (sim : list nat -> tens 1) (model : tens 1) :
+  cov_ok cov -> supported_from D cov -> (2 <= D)%nat -> p_st p = stats_of cov -> sizes_ok p ->
+  (1 + qnat (p_nseq p / 2) * qnat D) * qpow half D <= thr ->
+  shape_le 1 [p] model -> tall 1 (fun m => 0 <= m) model -> tget 1 model [0%nat] == 0 ->
+  forall i,
+  Qabs (tget 1 (lowpass 1 [p] thr sim model) [i] - tget 1 (plain_projection 1 [p] model) [i])
+  <= (2 * qnat (p_nsub p / 2) + 1 + qnat (p_nseq p / 2) * qnat D) * qpow half D * ttotal 1 model.
+Proof.
+  intros OK Sp HD St Hsz Ht Hsh Hnn Hc i.
+  pose proof (deep_coverage_rate 1 [p] thr sim model D (p_nseq p / 2) eq_refl HD) as R.
+  cbn [map] in R. rewrite qsum_cons, qsum_nil in R.
+  assert (Hc1 : Forall (covered_from D) [p]) by (constructor; [exists cov; exact (conj OK (conj Sp St)) | constructor]).
+  assert (Hs1 : Forall sizes_ok [p]) by (constructor; [exact Hsz | constructor]).
+  assert (Hn1 : Forall (fun q => (p_nseq q / 2 <= p_nseq p / 2)%nat) [p]) by (constructor; [lia | constructor]).
+  eapply Qle_trans; [apply (R Hc1 Hs1 Hn1); auto|].
+  apply Qmult_le_compat_r; [|apply (tall_total_nonneg 1 model Hnn)].
+    apply Qmult_le_compat_r; [|apply half_pow_nonneg]. lra.
+Qed.
+
+(** the hypotheses are satisfiable away from the limit point (s, t, h > 0): depths 3 and 4 with probability 1/2 each *)
+Example deep_rate_hypotheses_inhabited :
+  let cov := [0; 0; 0; 1 # 2; 1 # 2] in
+  let p := {| p_nseq := 6; p_nsub := 4; p_st := stats_of cov; p_F := 0 |} in
+  covered_from 3 p /\ sizes_ok p /\ 0 < st_s (p_st p) /\ 0 < st_t (p_st p) /\ 0 < st_h (p_st p).
+Proof.
+  cbv zeta. split; [|split].
+  - eexists. split; [|split; [|reflexivity]].
+    + split; [|split; [reflexivity | reflexivity]].
+      intros c Hc. cbn [In] in Hc. repeat (destruct Hc as [<-|Hc]; [discriminate|]). destruct Hc.
+    + intros [|[|[|k]]] Hk; try reflexivity. lia.
+  - repeat split; try reflexivity; cbn; try lia. left. reflexivity.
+  - repeat split; reflexivity.
+Qed.
+
+Print Assumptions deep_rate.
+Print Assumptions deep_rate_sum.
+Print Assumptions deep_rate_one_pop.
+Print Assumptions deep_coverage_rate.
+Print Assumptions deep_coverage_rate_one_pop.
